@@ -12,6 +12,24 @@ C = 'histories: BFS over operation sequences against a model of the global gener
 
 # id -> (engine, technique, level text, level note, design ref)
 CHECKS = {
+    'C03': ('smallscope', 'bounded-exhaustive enumeration of all small (di)graphs vs exact-hop min-plus / BFS reference model',
+            'Every labelled digraph n<=4 / graph n<=5 (binary), lengths {1,2,3} on 3-node digraphs and 4-node graphs, dyadic '
+            'weights for the inv/log transforms (thorough: lengths {1,2} on all 531441 4-node digraphs, 5-node graphs, binary n=6) '
+            'through distance_bin/_wei/_wei_floyd, breadthdist, reachdist, charpath, efficiency_bin/_wei, rout_efficiency; '
+            'distances, reachability flags, hop counts (must be the hop count of some minimum-length path) and means compared '
+            'with an independent dynamic programme. Complete for that scope only.',
+            'trusted: bctmc/oracles.py (min-plus over exact hop counts, BFS; cross-checked against each other at run time), numpy', 'DESIGN.md section 4 C03'),
+    'C15': ('smallscope', 'bounded-exhaustive enumeration of graphs x all k against subset-enumeration oracle',
+            'All graphs n<=5 (6 thorough) x k=0..n, all digraphs n<=4 x k=0..2n-1, 4-node weighted graphs x s on a 0.25 grid: '
+            'kcore_bu/kcore_bd/score_wu matrix, size, peel order/levels, kcoreness_centrality_bu/_bd coreness and core sizes '
+            'compared with the union of all node subsets that meet the bound internally (all 2^n subsets enumerated).',
+            'trusted: subset-enumeration oracle in checks/c15.py; float64 inputs', 'DESIGN.md section 4 C15'),
+    'C17': ('smallscope', 'bounded-exhaustive enumeration of small matrices x full dyadic p grid x thresholds x copy flag',
+            'All symmetric {0,1,2,3} 4-node and all {0,1,2,3} 3-node / binary 4-node matrices, with and without diagonal, x p=j/32 '
+            '(every .5 rounding boundary) x copy flag for threshold_proportional (count by exact rational round-half-up, strongest kept, '
+            'diagonal, symmetry, aliasing); all {-2..2} matrices x every threshold for threshold_absolute, binarize, normalize, invert, '
+            'weight_conversion against elementwise definitions.',
+            'trusted: exact Fraction arithmetic for the expected count; float64 inputs; p restricted to values whose product is exact or far from .5', 'DESIGN.md section 4 C17'),
     'C16': ('smallscope', 'bounded-exhaustive enumeration of all labelled graphs up to n nodes vs BFS reference model',
             'Every labelled undirected graph with n<=6 (quick) / n<=7 (thorough) nodes, in binary, weighted and '
             'non-zero-diagonal variants, and every asymmetric 3-node 0/1 matrix, is run through get_components / '
